@@ -67,6 +67,14 @@ Drain(a, b, nf, nb) ==
           /\ ret' = DrainYield(SubSeq(vec, a + 1, b), nf, nb)
      ELSE /\ vec' = vec /\ ret' = <<PANIC>>
 
+(* The range argument of drain / get / get_mut is any RangeBounds / SliceIndex form; kind k:
+   0: a..b   1: a..=b   2: ..b   3: ..=b   4: a..   5: ..
+   It denotes the half-open interval [RStart, REnd) of the standard library (slice::range / SliceIndex). *)
+RangeKinds == 0..5
+RStart(k, a) == IF k \in {2, 3, 5} THEN 0 ELSE a
+REnd(k, b) == IF k \in {0, 2} THEN b ELSE IF k \in {1, 3} THEN b + 1 ELSE Len(vec)
+DrainK(k, a, b, nf, nb) == Drain(RStart(k, a), REnd(k, b), nf, nb)
+
 (* get(i) / get(a..b): None unless the lookup succeeds *)
 Get(i) == /\ UNCHANGED <<vec, fresh>>
           /\ ret' = IF i < Len(vec) THEN <<vec[i + 1]>> ELSE <<NONE>>
@@ -83,6 +91,9 @@ GetMutRangeWrite(a, b) ==
   THEN /\ vec' = [i \in 1..Len(vec) |-> IF a < i /\ i <= b THEN fresh + (i - a - 1) ELSE vec[i]]
        /\ fresh' = fresh + (b - a) /\ ret' = SubSeq(vec, a + 1, b)
   ELSE /\ UNCHANGED <<vec, fresh>> /\ ret' = <<NONE>>
+
+GetRangeK(k, a, b) == GetRange(RStart(k, a), REnd(k, b))
+GetMutRangeWriteK(k, a, b) == GetMutRangeWrite(RStart(k, a), REnd(k, b))
 
 (* iteration by reference: forward, backward, and nf items from the front then the rest from the back *)
 Iter == /\ UNCHANGED <<vec, fresh>> /\ ret' = vec
